@@ -653,7 +653,8 @@ def r8_uniform_scale(ctx, rule):
                 d = None
                 for i in range(at - 1, -1, -1):
                     t = top[i]
-                    if isinstance(t, ast.Assign) and any(isinstance(x, ast.Name) and x.id == n.id for x in t.targets):
+                    if isinstance(t, ast.Assign) and any(isinstance(x, ast.Name) and x.id == n.id and isinstance(x.ctx, ast.Store)
+                                                         for tg_ in t.targets for x in ast.walk(tg_)):
                         d = (t, i)
                         break
                 if d is not None:
